@@ -827,6 +827,10 @@ impl<S: EntryIoStream, E: Entry> Receiver<S, E> {
         self.flush_stream();
         drop(self.stream); // Close the file before we report we're done!
         tracing::info!("background metric log writing has shut down");
+        // `cargo kani` only: leak the queue internals instead of dropping them. Their drop glue
+        // (std::sync::mpsc, Parker) is irrelevant to what shut_down promises and exhausts CBMC's memory.
+        #[cfg(kani)]
+        std::mem::forget((self.inner, self.parker, self.shutdown_signal));
     }
 }
 
